@@ -209,7 +209,13 @@ namespace bloch::cli {
                     emitQasm = true;
                 } else if (arg.rfind(kFlagShotsPrefix, 0) == 0) {
                     isCliShots = true;
-                    cliShots = std::stoi(arg.substr(kFlagShotsPrefix.size()));
+                    // a count that is not a positive int is a usage error, not an uncaught
+                    // std::invalid_argument / std::out_of_range
+                    const std::string count = arg.substr(kFlagShotsPrefix.size());
+                    cliShots = 0;
+                    if (!count.empty() && count.size() <= 9 &&
+                        count.find_first_not_of("0123456789") == std::string::npos)
+                        cliShots = std::stoi(count);
                     if (cliShots <= 0) {
                         std::cerr << "--shots must be positive\n";
                         return 1;
